@@ -631,8 +631,9 @@ PROPS = {
     "C19": {
         "lean_modules": ["Dbg.Props.C19", "Dbg.Props.C19b"],
         "theorems": ["Graph.C19_index_unique", "Graph.C19_queries_determined", "Graph.C19_search_exact", "Graph.searchKmer_exact",
-                     "Boom.C19_boom_exact", "Boom.C19_builders_agree", "Boom.get_exact", "Boom.get_no_panic", "Boom.slots_of_keyIds"],
-        "partial": ["proved for every hash function a builder may produce (a universally quantified parameter of the BoomHashMap model, arbitrary on absent keys): if the slots hold the pairs (terminal k-mer of node i, i) in the order that function dictates, every lookup is exact and any two builders agree (C19_builders_agree). That boomphf's Mphf construction and create_map establish those two decidable facts under every thread schedule is not provable in a model of this crate: they are evaluated on the real maps' slot layout (hook verif_index_layout) after every run (1-16 threads, repeated runs, 10^5-node graphs)"],
+                     "Boom.C19_boom_exact", "Boom.C19_builders_agree", "Boom.get_exact", "Boom.get_no_panic", "Boom.slots_of_keyIds",
+                     "Boom.C19_finish_exact", "Boom.C19_finish_eq_search", "Boom.create_spec", "Boom.settle_spec", "Boom.createLoop_spec", "Boom.layoutOK_of_perm"],
+        "partial": ["proved for every hash function a builder may produce (a universally quantified parameter of the BoomHashMap model, arbitrary on absent keys): if the slots hold the pairs (terminal k-mer of node i, i) in the order that function dictates, every lookup is exact and any two builders agree (C19_builders_agree). create_map (the cycle sort) is modelled too and proved to terminate, to permute the pairs and to leave each in its slot for every function that is a minimal perfect hash on the node ends (C19_finish_exact: finish/finish_serial give exact lookups above Mphf). That the function boomphf's Mphf construction returns is minimal perfect on the inserted keys under every thread schedule is not provable in a model of this crate: its consequences (slots, layout) are evaluated on the real maps' slot layout (hook verif_index_layout) after every run (1-16 threads, repeated runs, 10^5-node graphs)"],
         "n_quick": 1500, "n_thorough": 60000,
         "nontrivial": lambda toks, impl: impl.startswith("same=1") or ("same=1" in impl and toks[5].count(",") >= 1), "tags": _c19_tags,
         "rule": "requests `finish K stranded threads nodes probes`: pipeline graphs (one in three with even K extended by hand-built nodes around a k-mer that is its own reverse complement - a longer node that starts or ends with it, neighbours whose extension leads to it - and probed at that k-mer and the new node ends on both sides; one in three with K > 32 by two nodes whose first or last k-mers are twins `P M Q` / `Q M P`, |P| = |Q| = K - 32) finished once with finish_serial() and five times with finish() "
@@ -642,7 +643,7 @@ PROPS = {
                 "implementation; the model is not consulted at this size). The corpus holds one 10^5-node case for every quick run. "
                 "Every `finish` answer carries the slot layout (key, value, slot reported by get_key_id) of the four real index maps - serial L/R and the parallel run whose slot order differs from the serial one - "
                 "on which the driver evaluates the hypotheses of `C19_builders_agree` (`layoutOK`, `slotsOK`); on the 10^5-node graphs the same two predicates are evaluated in Rust on every run.",
-        "trusted_base": ["boomphf's Mphf (the hash function: injective on the inserted keys, ranks below their number) and create_map (moves every pair to its slot), rayon: not modelled; what they must establish is observed on the real layout after every run, not proved"],
+        "trusted_base": ["boomphf's Mphf::new / new_parallel (bit-vector cascade, rayon): not modelled; assumed to return a function that is injective on the inserted keys with ranks below their number (MPH) and whose ranks for absent keys are below that number too (InRange); the consequences are observed on the real slot layout after every run", "BoomHashMap::create_map / get / get_key_id: modelled by hand from boomphf-0.6.0/src/hashmap.rs (an external crate, read not translated)"],
         "assumptions": ["node ends distinct (valid graphs)"],
     },
 }
